@@ -20,10 +20,21 @@ class Effect:
     node: ast.Call
     what: str          # write_text | mkdir | rmtree | run | open ...
     target: ast.expr | None   # path operand (receiver or first argument)
+    origin: "Effect | None" = None   # for an effect stated at a call of the helper that performs it: the effect inside the helper
 
     @property
     def where(self) -> str:
         return f"{self.func.module.rel}:{self.node.lineno}"
+
+    @property
+    def site_func(self) -> FuncInfo:
+        """the function in which the effect itself is written"""
+        return self.origin.site_func if self.origin is not None else self.func
+
+    @property
+    def site(self) -> ast.Call:
+        """the call that performs the effect itself (open / write_text / subprocess.run ...), wherever it is stated"""
+        return self.origin.site if self.origin is not None else self.node
 
 
 def effect_sites(ix: Any) -> list[Effect]:
@@ -133,4 +144,104 @@ def performing(ix: Any, f: FuncInfo, hit: Any, cfgs: dict, must: bool = False, d
             if inner and (not must or cfg_of(g, cfgs).every_path_passes(ENTRY, EXIT, lambda x: any(x is s for s in inner))):
                 out.append(st)
                 break
+    return out
+
+
+# ---- effects of helpers, stated where the helper is called ------------------------------------------------------------------------
+def _own_params(f: FuncInfo) -> set[str]:
+    """parameters of f that f never rebinds (self / cls excluded)"""
+    a = f.node.args
+    names = [p.arg for p in (*a.posonlyargs, *a.args, *a.kwonlyargs)]
+    if f.cls is not None and f.kind != "staticmethod" and names:
+        names = names[1:]
+    stored = {n.id for n in ast.walk(f.node) if isinstance(n, ast.Name) and isinstance(n.ctx, (ast.Store, ast.Del))}
+    return {n for n in names if n not in stored}
+
+
+def _substitute(e: ast.expr, env: dict[str, ast.expr]) -> ast.expr | None:
+    """e with parameter names replaced by argument expressions. Only the spine (`/`, f-strings) is rebuilt; every other node is the
+    original one, so that values the interpreter recorded for it are still found. None: a parameter occurs where it cannot be
+    replaced (inside a call, a subscript ...)."""
+    if isinstance(e, ast.Name):
+        return env.get(e.id, e)
+    if not any(isinstance(n, ast.Name) and n.id in env for n in ast.walk(e)):
+        return e
+    if isinstance(e, ast.BinOp) and isinstance(e.op, ast.Div):
+        l, r = _substitute(e.left, env), _substitute(e.right, env)
+        return ast.copy_location(ast.BinOp(left=l, op=e.op, right=r), e) if l is not None and r is not None else None
+    if isinstance(e, ast.JoinedStr):
+        vals: list[ast.expr] = []
+        for v in e.values:
+            if isinstance(v, ast.FormattedValue):
+                x = _substitute(v.value, env)
+                if x is None:
+                    return None
+                vals.append(ast.copy_location(ast.FormattedValue(value=x, conversion=v.conversion, format_spec=v.format_spec), v))
+            else:
+                vals.append(v)
+        return ast.copy_location(ast.JoinedStr(values=vals), e)
+    return None
+
+
+def bind_call(ix: Any, g: FuncInfo, c: ast.Call, f: FuncInfo) -> dict[str, ast.expr] | None:
+    """argument expression per parameter of f at the call c (made inside g); None when the call does not spell them out (* / **)"""
+    if any(isinstance(a, ast.Starred) for a in c.args):
+        return None
+    a = f.node.args
+    pos = [p.arg for p in (*a.posonlyargs, *a.args)]
+    bound = f.cls is not None and f.kind != "staticmethod" and isinstance(c.func, ast.Attribute) and \
+        not (isinstance(c.func.value, ast.Name) and f.cls is not None and c.func.value.id == f.cls.name and f.kind != "classmethod")
+    if bound and pos:
+        pos = pos[1:]
+    out: dict[str, ast.expr] = dict(zip(pos, c.args))
+    for k in c.keywords:
+        if k.arg is not None:
+            out[k.arg] = k.value
+    return out
+
+
+def in_context(ix: Any, effs: list[Effect], depth: int = 3) -> list[Effect]:
+    """An effect whose path operand is made of parameters of the function it stands in (a writer helper: `_write(path, text)`,
+    `_render_to(path, template, **ctx)`) happens, as far as its destination goes, where that function is called: it is stated once per
+    call, with the arguments in place of the parameters (transitively). Rules about destinations and about the order of effects then
+    read the same whether a write is spelled out in place or routed through a helper. An effect that cannot be restated (a caller
+    passes * / **, a parameter is used inside a further computation, no caller in the package) is kept where it is."""
+    callers: dict[str, list[tuple[FuncInfo, ast.Call]]] = {}
+
+    def calls_of(f: FuncInfo) -> list[tuple[FuncInfo, ast.Call]]:
+        if not callers:
+            for g in ix.all_functions:
+                for c in ast.walk(g.node):
+                    if isinstance(c, ast.Call):
+                        h = callee_of(ix, g, c)
+                        if h is not None:
+                            callers.setdefault(h.qual, []).append((g, c))
+        return callers.get(f.qual, [])
+
+    out: list[Effect] = []
+
+    def place(e: Effect, d: int) -> None:
+        ps = {n.id for n in ast.walk(e.target) if isinstance(n, ast.Name)} & _own_params(e.func) if e.target is not None else set()
+        sites = calls_of(e.func) if ps and d > 0 else []
+        restated: list[Effect] = []
+        for g, c in sites:
+            if g is e.func:
+                continue
+            args = bind_call(ix, g, c, e.func)
+            if args is None or not ps <= set(args):
+                restated = []
+                break
+            tgt = _substitute(e.target, {p: args[p] for p in ps})  # type: ignore[arg-type]
+            if tgt is None:
+                restated = []
+                break
+            restated.append(Effect(g, c, e.what, tgt, e))
+        if not restated:
+            out.append(e)
+            return
+        for r in restated:
+            place(r, d - 1)
+
+    for e in effs:
+        place(e, depth)
     return out
